@@ -148,6 +148,11 @@ structure ApplyFacts (m m' : Market) (q : SwapParams) (c : SwapCalc) : Prop wher
   /-- nothing but the liquidity, swap impact, claimable fee pools and the virtual inventory changes -/
   frame : m' = { m with primary := m'.primary, swapImpact := m'.swapImpact, fee := m'.fee, viSwaps := m'.viSwaps }
   vi_none : m.viSwaps = none → m'.viSwaps = none
+  /-- a present virtual inventory receives exactly the liquidity pool's deltas -/
+  vi_some : ∀ v, m.viSwaps = some v → ∃ v', m'.viSwaps = some v' ∧
+    (v'.amount q.isInLong : Int) - v.amount q.isInLong = (m'.primary.amount q.isInLong : Int) - m.primary.amount q.isInLong ∧
+    (v'.amount (!q.isInLong) : Int) - v.amount (!q.isInLong)
+      = (m'.primary.amount (!q.isInLong) : Int) - m.primary.amount (!q.isInLong)
 
 theorem swapApply_spec {W : Nat} {m m' : Market} {q : SwapParams} {c : SwapCalc}
     (h : swapApply W m q c = some m') : ApplyFacts m m' q c := by
@@ -199,13 +204,17 @@ theorem swapApply_spec {W : Nat} {m m' : Market} {q : SwapParams} {c : SwapCalc}
                 · rename_i hvi
                   cases h
                   exact ⟨by simp only; omega, by simp only; omega, by simp only; omega, by simp only; omega,
-                         hip, hin, by simp [hvi], fun _ => hvi⟩
+                         hip, hin, by simp [hvi], fun _ => hvi, fun v hv => by rw [hvi] at hv; cases hv⟩
                 · rename_i v hvi
                   split at h
                   · cases h
                   · rename_i v' hv'
                     cases h
+                    obtain ⟨u1, u2⟩ := applyBothSides_spec hv'
                     exact ⟨by simp only; omega, by simp only; omega, by simp only; omega, by simp only; omega,
-                           hip, hin, rfl, fun hn => by simp [hvi] at hn⟩
+                           hip, hin, rfl, fun hn => by simp [hvi] at hn,
+                           fun v0 hv0 => by
+                             rw [hvi] at hv0; cases hv0
+                             exact ⟨v', rfl, by simp only; omega, by simp only; omega⟩⟩
 
 end Gmx.Lem
